@@ -45,7 +45,7 @@ type c15PJCase struct {
 	Fault             string `json:"fault"`               // "" | badsig | disallowed | no-state-key | duplicate
 	FaultTarget       string `json:"fault_target"`        // badsig: create | creator | pl | jr | lara | topic ; others: state | auth
 	Echo              string `json:"echo"`                // "" | echo | other | other-bad-sender | garbage
-	TemplateOdd       string `json:"template_odd"`        // "" | type | room | redacts
+	TemplateOdd       string `json:"template_odd"`        // "" | type | room | redacts | few-auth
 	Unsigned          bool   `json:"unsigned"`
 }
 
@@ -193,7 +193,17 @@ func c15PJCheck(ctx *vfCtx, c c15PJCase) {
 		b.add(raEv{Type: "m.room.member", Sender: c15Creator, StateKey: raSK(c15Rita), Content: jobj("membership", jstr("invite"))})
 	}
 	// the template the resident server offers
-	tmplTree := c15MemberTree(b, "m.room.member", c15Rita, raSK(c15Rita), b.RoomID, jobj("membership", jstr("join"))).without("hashes", "origin_server_ts", "event_id")
+	var tmplAuth []string
+	if c.TemplateOdd == "few-auth" { // the template cites the create and power-level events only
+		tmplAuth = []string{}
+		if id, ok := b.stateID("m.room.create", ""); ok && !vtraits[version].Creators {
+			tmplAuth = append(tmplAuth, id)
+		}
+		if id, ok := b.stateID("m.room.power_levels", ""); ok {
+			tmplAuth = append(tmplAuth, id)
+		}
+	}
+	tmplTree := c15MemberTreeAuth(b, "m.room.member", c15Rita, raSK(c15Rita), b.RoomID, jobj("membership", jstr("join")), tmplAuth).without("hashes", "origin_server_ts", "event_id")
 	switch c.TemplateOdd {
 	case "type":
 		tmplTree = tmplTree.with("type", jstr("m.room.message"))
@@ -310,7 +320,7 @@ func c15PJCheck(ctx *vfCtx, c c15PJCase) {
 			survives[id] = true
 		}
 	}
-	faultless := c.Fault == "" && c.CreateWhere == "both" && c.CreateRoomVersion == "=" && !c.MakeErr && !c.SendErr && gVersion && c.JoinRule != "invite" && c.Echo != "other-bad-sender"
+	faultless := c.Fault == "" && c.CreateWhere == "both" && c.CreateRoomVersion == "=" && !c.MakeErr && !c.SendErr && gVersion && c.JoinRule != "invite" && c.Echo != "other-bad-sender" && c.TemplateOdd != "few-auth"
 	if faultless {
 		ctx.Class("all-guards-hold")
 	}
@@ -333,7 +343,7 @@ func c15PJCheck(ctx *vfCtx, c c15PJCase) {
 	ctx.Class("echo/" + c.Echo)
 	ctx.Class("template/" + c.TemplateOdd)
 	nfaults := 0
-	for _, f := range []bool{c.Fault != "", c.CreateWhere != "both", c.CreateRoomVersion != "=", c.MakeErr, c.SendErr, !gVersion, c.JoinRule == "invite", c.Echo == "other-bad-sender"} {
+	for _, f := range []bool{c.Fault != "", c.CreateWhere != "both", c.CreateRoomVersion != "=", c.MakeErr, c.SendErr, !gVersion, c.JoinRule == "invite", c.Echo == "other-bad-sender", c.TemplateOdd == "few-auth"} {
 		if f {
 			nfaults++
 		}
@@ -466,7 +476,7 @@ func c15PJGen(t *rapid.T) c15PJCase {
 	c.Version = rapid.SampledFrom(c15Versions).Draw(t, "version")
 	c.JoinRule = rapid.SampledFrom([]string{"public", "public", "invited"}).Draw(t, "joinRule")
 	c.Echo = rapid.SampledFrom([]string{"", "echo", "echo", "other", "garbage"}).Draw(t, "echo")
-	c.TemplateOdd = rapid.SampledFrom([]string{"", "", "", "type", "room", "redacts"}).Draw(t, "templateOdd")
+	c.TemplateOdd = rapid.SampledFrom([]string{"", "", "", "type", "room", "redacts", "few-auth"}).Draw(t, "templateOdd")
 	c.Unsigned = rapid.Bool().Draw(t, "unsigned")
 	if (c.Version == "1" || c.Version == "4") && rapid.IntRange(0, 3).Draw(t, "noVersion") == 0 {
 		c.RespVersion = ""
